@@ -39,6 +39,10 @@ def prototypes(seed, K, D, kind, complex_):
 
 
 def class_sizes(K, D, kind):
+    if kind == 'huge':
+        # more observations than any internal block size (40 003 in total, not a multiple of a power of two)
+        base = 40003 // K
+        return [base + (40003 - base * K if k == 0 else 0) for k in range(K)]
     if kind == 'equal':
         return [D + 2] * K
     base = [D + 2, 2 * D + 3, 3 * D]
@@ -282,7 +286,14 @@ def subchecks(tier, seed):
                                                         (its not in (2, 20) or sk != 'equal' or gk == 'phasor'):
                                                     continue
                                                 yield (model, K, D, pk, pert, sk, gk, blur, its, wca, seed)
-    return [Sub('fixed_point',
+    def huge_cases():
+        for model in ('gmm', 'gcacgmm'):
+            for its in (1, 2):
+                yield (model, 2, 2, 'rotated', 1e-2, 'huge', 'one', 'onehot', its, (-1,), seed)
+    huge = Sub('fixed_point_many_observations',
+               ('model', 'K', 'D', 'protos', 'pert', 'sizes', 'gains', 'blur', 'its', 'wca', 'seed'),
+               huge_cases, run, bound=dict(N=40003))
+    return [huge, Sub('fixed_point',
                 ('model', 'K', 'D', 'protos', 'pert', 'sizes', 'gains', 'blur', 'its', 'wca', 'seed'),
                 cases, run, bound=dict(K=[2, 3, 4], D='K, K+1' + (', 8' if thorough else ''),
                                        iterations=[1, 2, 5, 20]), min_nontrivial=500)]
